@@ -18,12 +18,20 @@ for prop in ("C11", "C15", "C16"):
         desc = next((l.strip("# *-").strip() for l in what if len(l.strip()) > 30 and not l.startswith("#")), what[0] if what else "")
         needs = meta.get("needs", "")
         rows.append((prop, os.path.basename(d), (desc[:230] + ("…" if len(desc) > 230 else "")) + (f" **Needs:** {needs}" if needs else "") + (f" *({first})*" if first else ""), meta.get("expect", "caught"), res.get(name, {})))
+for d in sorted(glob.glob(f"{V}/seeded/B*")):
+    meta = json.load(open(os.path.join(d, "meta.json")))
+    what = meta["what"].strip().splitlines()
+    desc = next((l.strip("# *-").strip() for l in what if len(l.strip()) > 30 and not l.startswith("#")), what[0] if what else "")
+    for prop in ("C11", "C15", "C16"):
+        rows.append((prop, os.path.basename(d) + "@" + prop, "behaviour-preserving refactor: " + desc[:200], "survives", res.get("seeded/" + os.path.basename(d) + "@" + prop, {})))
 out = ["| property | item | change | expected | quick check says | first violation class reported |", "|---|---|---|---|---|---|"]
 for prop, name, desc, expect, r in rows:
     if not r:
         verdict, cls = "not run", ""
     else:
         verdict = "**caught**" if r.get("caught") else ("survived" if r.get("exit") == 0 else f"exit {r.get('exit')}")
+        if r.get("runs"):
+            verdict += f" [{r.get('violating_runs')} of {r.get('runs')} runs]"
         if r.get("repo_tests_still_pass") is True:
             verdict += " (repo suite still passes)"
         elif r.get("repo_tests_still_pass") is False:
